@@ -383,7 +383,21 @@ fn family_extreme(t: &mut Tape) -> String {
         5 => format!("TYPE\nr : INT({}..{});\nEND_TYPE\n", b, b2),
         6 => format!("TYPE\nr : INT(-{}..{});\nEND_TYPE\n", b, b2),
         7 => format!("TYPE\na : ARRAY[{}..{}] OF INT := [{}({})];\nEND_TYPE\n", b, b2, b, b2),
-        8 => format!("TYPE\ns : STRING[{}];\nEND_TYPE\nPROGRAM p\nVAR\nw : WSTRING[{}];\nEND_VAR\nEND_PROGRAM\n", b, b2),
+        8 => {
+            // a declared length, count or bound is a number someone may allocate or loop by: with and
+            // without an initial value, both bracket spellings, in TYPE, VAR and structure elements
+            let (o, c) = if t.flag() { ("[", "]") } else { ("(", ")") };
+            let kw = *t.pick(&["STRING", "WSTRING"]);
+            let q = if kw == "STRING" { "'" } else { "\"" };
+            let init = if t.ratio(2, 3) { format!(" := {}{}{}", q, *t.pick(&["", "x", "abc", "$N", "0123456789"]), q) } else { String::new() };
+            match t.below(5) {
+                0 => format!("TYPE\ns : {}{}{}{}{};\nEND_TYPE\n", kw, o, b, c, init),
+                1 => format!("PROGRAM p\nVAR\nw : {}{}{}{}{};\nEND_VAR\nEND_PROGRAM\n", kw, o, b, c, init),
+                2 => format!("TYPE\nt : STRUCT\nm : {}{}{}{}{};\nEND_STRUCT;\nEND_TYPE\n", kw, o, b, c, init),
+                3 => format!("PROGRAM p\nVAR\na : ARRAY[{}..{}] OF INT := [{}({}), 1];\nEND_VAR\nEND_PROGRAM\n", t.below(3), b2, b, t.below(9)),
+                _ => format!("TYPE\ns : {}{}{}{}{};\nEND_TYPE\nPROGRAM p\nVAR CONSTANT\nw : s;\nv : s{};\nEND_VAR\nEND_PROGRAM\n", kw, o, b, c, init, init),
+            }
+        }
         9 => format!("FUNCTION_BLOCK f\nINITIAL_STEP i:\nEND_STEP\nTRANSITION t1 (PRIORITY := {}) FROM i TO i\n:= TRUE;\nEND_TRANSITION\nEND_FUNCTION_BLOCK\n", b),
         10 => format!("PROGRAM p\nVAR\nx AT %{}{}{} : BOOL;\nEND_VAR\nEND_PROGRAM\n", *t.pick(&["I", "Q", "M"]), *t.pick(&["", "X", "B", "W", "D", "L"]), {
             let n = 1 + t.below(3);
